@@ -240,6 +240,30 @@ def main(run):
             run.add(Finding("C04:slit-mixed-lowq", "mixed slit (L=%.3g, W=%.3g) with data points at q < W: relative errors %s against (1/2WL) int int I(sqrt((q+v)^2+u^2)) du dv - the window below zero is not folded back" % (L_, W_, rels), desc))
         else:
             distinct.add(("slit-mixed-lowq", L_, W_))
+    # ------------------------------------------------------------------ mixed slit of extreme aspect ratio
+    # both extents non-zero, one of them thousands of times the other: still the DOUBLE integral (with an intensity that
+    # varies on the scale of the small extent, dropping that dimension is a 10-30 % error); a calculation grid fine
+    # where the intensity lives; accuracy of the 61-point rule: 3 % demanded
+    stats["slit_extreme_aspect"] = 0
+    for L_, W_, Rg in ([(3.0, 0.002, 600.0)] if not thorough else [(3.0, 0.002, 600.0), (5.0, 0.001, 900.0), (2.0, 0.0015, 500.0)]):
+        fg = lambda x, Rg=Rg: np.exp(-(np.asarray(x) * Rg) ** 2 / 3.0)
+        q = np.array([0.25, 0.5, 1.0, 2.0]) * W_ * rng.uniform(0.95, 1.05)
+        cut = 12.0 / Rg      # the intensity is below 1e-20 beyond
+        ex = np.array([dblquad(lambda u, v: float(fg(math.sqrt((qi + v) ** 2 + u * u))), -W_, W_, 0, min(L_, cut), epsabs=1e-14, epsrel=1e-9)[0] / (2 * W_ * L_) for qi in q])
+        only_u = np.array([quad(lambda u: float(fg(math.sqrt(qi * qi + u * u))), 0, min(L_, cut), epsabs=0, epsrel=1e-11)[0] / L_ for qi in q])
+        # calculation grid: uniform where the intensity lives, geometric beyond (the data points themselves included)
+        qc = np.unique(np.concatenate([np.linspace(cut / 2000, cut, 2000), np.geomspace(cut, 1.05 * math.hypot(q.max() + W_, L_), 300)[1:], q]))
+        r = Slit1D(q, q_length=L_, q_width=W_, q_calc=qc)
+        got = r.apply(fg(r.q_calc))
+        evals += 1; stats["slit_extreme_aspect"] += 1
+        rels = np.abs(got - ex) / ex
+        desc = dict(kind="slit-extreme-aspect", q=list(map(float, q)), q_length=L_, q_width=W_, guinier_Rg=Rg, smeared=list(map(float, got)), exact=list(map(float, ex)),
+                    one_dimensional=list(map(float, only_u)), relative_errors=list(map(float, rels)))
+        if float(rels.max()) > 0.03:
+            run.add(Finding("C04:slit-extreme-aspect", "mixed slit (L=%.3g, W=%.3g, ratio %.0f) of a Guinier intensity (Rg=%.0f): relative errors %s against (1/2WL) int int I(sqrt((q+v)^2+u^2)) du dv (the one-dimensional integral over u alone is off by %s)" % (
+                L_, W_, L_ / W_, Rg, [round(float(x), 4) for x in rels], [round(float(x), 3) for x in np.abs(only_u - ex) / ex]), desc))
+        else:
+            distinct.add(("slit-extreme-aspect", L_, W_))
     # ------------------------------------------------------------------ 2-D
     quad_forms = [(1.0, 0.0, 1.0, 0.1), (3.0, -1.0, 0.5, 0.0), (0.2, 2.0, 4.0, 1.0)]
     for (a, b, c, d) in quad_forms:
